@@ -1,6 +1,7 @@
 package req
 
 import (
+	"bytes"
 	"crypto/md5"
 	"crypto/rand"
 	"crypto/sha256"
@@ -35,7 +36,7 @@ var hashFuncs = map[string]func() hash.Hash{
 // create response middleware for http digest authentication.
 func handleDigestAuthFunc(username, password string) ResponseMiddleware {
 	return func(client *Client, resp *Response) error {
-		if resp.Err != nil || resp.StatusCode != http.StatusUnauthorized {
+		if resp.Err != nil || resp.Response == nil || resp.StatusCode != http.StatusUnauthorized {
 			return nil
 		}
 		auth, err := createDigestAuth(resp.Response, username, password)
@@ -62,8 +63,19 @@ func handleDigestAuthFunc(username, password string) ResponseMiddleware {
 			req.Header = make(http.Header)
 		}
 		req.Header.Set(header.Authorization, auth)
+		// The 401 has already been read and bound to the result targets by the
+		// client-level response middleware. The answer to the authorized request
+		// replaces it: forget the 401 and process the final response the same way.
+		resp.body, resp.result, resp.error = nil, nil, nil
 		resp.Response, err = client.GetTransport().RoundTrip(&req)
-		return err
+		if err != nil {
+			return err
+		}
+		if !client.disableAutoReadResponse && !r.isSaveResponse && !r.disableAutoReadResponse && resp.StatusCode > 199 {
+			resp.ToBytes()
+			resp.Body = io.NopCloser(bytes.NewReader(resp.body))
+		}
+		return parseResponseBody(client, resp)
 	}
 }
 
